@@ -64,7 +64,7 @@ def thread_program():
         st.tuples(st.just("M"), st.just(0), st.just(0), st.just(0), st.just(0), st.sampled_from(MINIFY)),
         st.tuples(st.just("E"), st.integers(0, 7), st.integers(0, 7), st.integers(0, 40), st.just(0), st.sampled_from(KEYS)),
         st.tuples(st.just("U"), st.integers(0, 7), st.integers(0, 7), st.integers(0, 1), st.sampled_from([0, 0]), st.sampled_from(POINTERS)),
-        st.tuples(st.just("U"), st.integers(0, 7), st.integers(0, 7), st.integers(0, 1), st.sampled_from([1, 3, 5, 5]), st.just(b"")),
+        st.tuples(st.just("U"), st.integers(0, 7), st.integers(0, 7), st.integers(0, 1), st.sampled_from([1, 3, 5, 5, 6, 6]), st.just(b"")),
         st.tuples(st.just("U"), st.integers(0, 7), st.integers(0, 7), st.integers(0, 1), st.sampled_from([2, 4]), st.sampled_from(PATCHES)),
         st.tuples(st.just("X"), st.integers(0, 7), st.just(0), st.just(0), st.just(0), st.just(b"")),
     ).map(list)
@@ -79,6 +79,7 @@ def thread_program():
     core = st.lists(st.sampled_from([["U", 0, 1, 0, 1, b""], ["U", 0, 1, 1, 1, b""], ["U", 1, 0, 1, 1, b""], ["U", 1, 0, 1, 3, b""], ["U", 0, 1, 0, 3, b""],
                                      ["U", 0, 1, 1, 5, b""], ["R", 0, 0, 1, 0, b""], ["R", 1, 1, 0, 0, b""], ["R", 0, 2, 1, 3, b""], ["R", 1, 3, 0, 0, b""],
                                      ["D", 2, 0, 1, 0, b""], ["C", 0, 1, 1, 0, b""], ["E", 0, 0, 7, 0, b"new key"],
+                                     ["U", 0, 1, 1, 6, b""], ["U", 1, 2, 0, 6, b""], ["U", 0, 5, 1, 6, b""], ["U", 1, 0, 1, 6, b""],
                                      ["U", 2, 0, 1, 2, b'[{"op":"remove","path":""}]'], ["U", 2, 0, 0, 2, b'[{"op":"replace","path":"","value":[1.5]}]']]), min_size=2, max_size=6)
     return st.tuples(head, core, st.lists(st.one_of(op, op, util), min_size=3, max_size=30)).map(lambda t: t[0] + t[1] + t[2])
 
